@@ -185,17 +185,15 @@ theorem C15_error_state_unreachable (s s' : State) (c : Call) (hs : s.state ≠ 
   simpa [core] using this
 
 /-- Integers read back exactly: the decimal rendering of every `u64` converts back to the same
-value with the model of `Scalar::to_u64` (C11); every `u64` / `i64` / `i32` / `u32` rendering (in
-fact every magnitude below 10^20, `i64::MIN` included) is all digits after an optional `-` and has
-exactly the written value as its decimal value.  (The link of the signed case to the model of
-`Scalar::to_i64` is left to C11, whose model is being changed for the `i64::MIN` repair
-8327848; the implementation-side read-back through `to_i64` is checked by the L3 oracle for
-every integer call, `i64::MIN` included.) -/
+value with the model of `Scalar::to_u64`, the rendering of every `i64` — `i64::MIN` included
+(repaired in 8327848) — with the model of `Scalar::to_i64` (C11); in terms of plain decimal
+value, for every magnitude below 10^20. -/
 theorem C15_ints :
     (∀ n : Nat, n ≤ Scalar.U64_MAX → Scalar.toU64 (fmtNat n) = .ok n) ∧
+    (∀ i : Int, -(2 ^ 63) ≤ i → i ≤ 2 ^ 63 - 1 → Scalar.toI64 (fmtInt i) = .ok i) ∧
     (∀ n : Nat, n < 10 ^ 20 → allDigits (fmtNat n) = true ∧ decVal (fmtNat n) = n) ∧
     (∀ i : Int, i.natAbs < 10 ^ 20 → signedDecVal (fmtInt i) = i) := by
-  refine ⟨toU64_fmtNat, fun n h => ⟨(fmtNat_spec n h).1, (fmtNat_spec n h).2.1⟩, ?_⟩
+  refine ⟨toU64_fmtNat, toI64_fmtInt, fun n h => ⟨(fmtNat_spec n h).1, (fmtNat_spec n h).2.1⟩, ?_⟩
   intro i h
   unfold fmtInt
   by_cases hneg : i < 0
@@ -226,8 +224,8 @@ example : fmtInt (-1444) = [45, 49, 52, 52, 52] ∧ fmtNat 18446744073709551615 
     [49, 56, 52, 52, 54, 55, 52, 52, 48, 55, 51, 55, 48, 57, 53, 53, 49, 54, 49, 53] := by
   constructor <;> decide +kernel
 
-example : signedDecVal (fmtInt (-(2 ^ 63))) = -(2 ^ 63) :=
-  C15_ints.2.2 _ (by decide)
+example : Scalar.toI64 (fmtInt (-(2 ^ 63))) = .ok (-(2 ^ 63)) :=
+  C15_ints.2.1 _ (by decide) (by decide)
 
 /-- The flat-document instance of `C15_lexemes` (full statement below): root-level `key value`
 pairs written with `write_unquoted` and implicit `=` come out as exactly `k=v` lines separated
